@@ -148,6 +148,11 @@ func (r *Report) Guard(rule, construct, desc string, f func()) {
 			}
 		}
 	}
+	// no helper discharges the obligations: the first results stand.  The body is run once more on the real anchors so
+	// that whatever it left in variables shared with later rules is what the real anchors give, not a helper's.
+	r.Obligations = r.Obligations[:start]
+	anchorSubst = nil
+	run()
 	r.Obligations = append(r.Obligations[:start], first...)
 }
 
